@@ -68,15 +68,29 @@ def check(prog, res, tier):
     # ---- C14.b result width constants
     pfi = prog.func('pinblock.calculate_pvv')
     guards, bounds = [], []
+
+    def const_of(node):
+        if isinstance(node, ast.Constant):
+            return node
+        if isinstance(node, ast.Name):
+            r = prog.resolve_name(pfi.module, node.id)
+            if r is not None and r[0] == 'const' and isinstance(r[1], ast.Constant):
+                return r[1]
+            # a local bound once to a literal
+            for m in ast.walk(pfi.node):
+                if isinstance(m, ast.Assign) and len(m.targets) == 1 and isinstance(m.targets[0], ast.Name) \
+                        and m.targets[0].id == node.id and isinstance(m.value, ast.Constant):
+                    return m.value
+        return None
     for n in ast.walk(pfi.node):
         if isinstance(n, ast.Compare) and len(n.ops) == 1 and isinstance(n.ops[0], ast.Lt) and isinstance(n.left, ast.Call) \
-                and isinstance(n.left.func, ast.Name) and n.left.func.id == 'len' and isinstance(n.comparators[0], ast.Constant):
-            guards.append(n.comparators[0].value)
-        if isinstance(n, ast.Subscript) and isinstance(n.slice, ast.Slice) and isinstance(n.slice.upper, ast.Constant) \
+                and isinstance(n.left.func, ast.Name) and n.left.func.id == 'len' and const_of(n.comparators[0]) is not None:
+            guards.append(const_of(n.comparators[0]).value)
+        if isinstance(n, ast.Subscript) and isinstance(n.slice, ast.Slice) and n.slice.upper is not None and const_of(n.slice.upper) is not None \
                 and (n.slice.lower is None or (isinstance(n.slice.lower, ast.Constant) and n.slice.lower.value == 0)):
             par = getattr(n, '_parent', None)
             if isinstance(par, ast.Call) and isinstance(par.func, ast.Attribute) and par.func.attr == 'join' or isinstance(par, ast.Return):
-                bounds.append(n.slice.upper.value)
+                bounds.append(const_of(n.slice.upper).value)
     ob = Ob('C14.b', 'PVV: the second decimalisation pass runs whenever fewer than 4 digits were found and the result is the first 4',
             func_where(pfi), "if len(values_pass1) < 4: ...; ''.join(values_pass1[0:4])")
     if not guards or not bounds:
